@@ -14,3 +14,4 @@ for spec in sys.argv[1:]:
     print("==", spec)
     for i in r.instances: print("  ok  ", report.site_str(i["site"]), "|", i["what"])
     for v in r.violations: print("  FAIL", v["role"], report.site_str(v["site"]), "|", v["msg"])
+    for u in r.undecideds: print("  ??  ", u["role"], report.site_str(u["site"]), "|", u["msg"])
